@@ -428,6 +428,22 @@ struct Executor {
     /// tasks that were picked while stalled (fault "task-stalled"): woken again at that instant
     stalled: Vec<(tokio::time::Instant, usize)>,
     stall_timer: Option<Pin<Box<tokio::time::Sleep>>>,
+    /// the simulated processor is busy until this timer fires (fault "processing-takes-time")
+    cpu_busy: Option<Pin<Box<tokio::time::Sleep>>>,
+}
+
+thread_local! {
+    static CPU_COST: std::cell::Cell<(u32, u64)> = std::cell::Cell::new((0, 0));
+}
+
+/// Fault: every poll of a task of `group` takes `micros` of virtual time, during which nothing else
+/// runs (one processor). Without it a task poll takes no virtual time at all, so that an endpoint is
+/// never "busy" when a timer falls due. Per run; reset by the runner.
+pub fn set_cpu_cost(group: u32, micros: u64) {
+    CPU_COST.with(|c| c.set((group, micros)));
+    if micros > 0 {
+        fault("processing-takes-time");
+    }
 }
 
 thread_local! {
@@ -583,6 +599,12 @@ impl Future for Executor {
             );
             return Poll::Ready(());
         }
+        if let Some(b) = this.cpu_busy.as_mut() {
+            if b.as_mut().poll(cx).is_pending() {
+                return Poll::Pending;
+            }
+            this.cpu_busy = None;
+        }
         // stall requests and stalls that are over
         let reqs = STALL_REQ.with(|q| std::mem::take(&mut *q.borrow_mut()));
         if !reqs.is_empty() {
@@ -663,6 +685,12 @@ impl Future for Executor {
             IN_TASK_POLL.with(|f| f.set(false));
             this.slots[id].group = current_group();
             set_group(0);
+            {
+                let (g, us) = CPU_COST.with(|c| c.get());
+                if us > 0 && g == this.slots[id].group {
+                    this.cpu_busy = Some(Box::pin(tokio::time::sleep(Duration::from_micros(us))));
+                }
+            }
             if tracing() && std::env::var("VERIF_TRACE_POLLS").is_ok() {
                 let name = with_state(|s| s.tasks[id].name);
                 trace_line(format!("poll task#{} {} -> {}", id, name, match &res { Ok(Poll::Pending) => "pending", Ok(Poll::Ready(())) => "ready", Err(_) => "PANIC" }));
@@ -861,9 +889,17 @@ where
         .expect("runtime");
 
     set_observe_ignore_group(None);
+    CPU_COST.with(|c| c.set((0, 0)));
     fe2o3_amqp::verif::install(fe2o3_amqp::verif::Hooks {
         spawn: Box::new(spawn_engine),
         sched_point: Box::new(|name| {
+            // H9: the connection engine gives up the processor after every iteration of its loop when
+            // (and only when) processing is set to take time: one frame handled = one poll = one unit
+            // of virtual processing time. No choice is drawn for it.
+            if name == "connection.engine.iteration" {
+                let (g, us) = CPU_COST.with(|c| c.get());
+                return us > 0 && g == current_group();
+            }
             // names under `observe.` only tell the harness where a future is: they never yield
             // (a yield there would be an await point the production code does not have)
             let den = if name.starts_with("observe.") { 0 } else { with_state(|s| s.sched_yield_den) };
@@ -917,6 +953,7 @@ where
                 deadline,
                 stalled: Vec::new(),
                 stall_timer: None,
+                cpu_busy: None,
             };
             spawn("main", main());
             ex.absorb_spawns();
